@@ -14,7 +14,8 @@ from hypothesis import strategies as st
 from pbt.core import HarnessError, Outcome
 from pbt.instruments.clock import VirtualClock
 from pbt.instruments import clock as _clock
-from pbt.props._loops import LOGICS, make_loop
+from pbt.props import _decoys
+from pbt.props._loops import LOGICS, PAYLOADS, make_loop
 
 TECHNIQUE = "exhaustive short op sequences + Hypothesis-generated histories under a virtual clock, judged by transition-legality rules of the breaker automaton"
 LEVEL_TEXT = ("Exploration: all op sequences up to length 4 (quick) / 5 (thorough) over a 9-op alphabet incl. clock advances around the recovery "
@@ -42,6 +43,8 @@ RULE += " Added after the seeded rounds: " + '40% of the generated histories sta
 RULE += ' 1/30 of the histories contain a `bulk` of 1001+ requests with fresh prompts; clock gaps range from 0.5 s to two days.'
 RULE += ' Bookkeeping calls between requests (clear_cache, get_statistics, get_circuit_breaker_stats).'
 RULE += " A request the loop reports as BLOCKED/SKIPPED after an agent's BLOCK is an intentional block also when the executor failed in the same turn (tightened after round 6: the earlier tolerance 'may or may not count' hid a change that counted vetoed requests as failures). Agents also raise exceptions that carry no message."
+RULE += " Round 7: per case the stub agents attach their name, an empty / None / 0 / False / [] / {} payload, a structure or 5000 characters to their verdicts."
+RULE += ' Round 7: a `decoy` (pbt/props/_decoys.py): a second object of the class, differently configured and put through a misleading script (same prompts / names / ids, opposite verdicts and limits), is built in the same process after the object under test.'
 
 PAIRS = {"raise_t": ("RAISE_TIMEOUT", "PERMIT"), "raise_v": ("EXECUTE", "RAISE_VALUE"), "raise_o": ("RAISE_OS", "PERMIT"), "ok": ("EXECUTE", "PERMIT"), "block": ("EXECUTE", "BLOCK"), "eblock": ("BLOCK", "PERMIT"), "fail": ("FAILURE", "PERMIT"),
          "raise_e": ("RAISE", "PERMIT"), "raise_a": ("EXECUTE", "RAISE"), "odd": ("UNKNOWN", "PERMIT"), "failblock": ("FAILURE", "BLOCK"),
@@ -81,7 +84,7 @@ def _with_trip_prefix(case):
 
 
 def strategy(tier):
-    return _strategy().map(_with_trip_prefix)
+    return _decoys.with_decoy(_strategy().map(_with_trip_prefix))
 
 
 def _strategy():
@@ -91,6 +94,7 @@ def _strategy():
         "threshold": st.integers(1, 4),
         "breaker": st.sampled_from([True, True, True, False]),
         "cache": st.booleans(),
+        "payload": st.sampled_from(["named"] * 8 + sorted(PAYLOADS)),        # what the agents attach to their verdicts: never the breaker's business
         "ops": st.lists(_op, min_size=1, max_size=20),
         "bulk": st.integers(0, 29).flatmap(lambda k: st.none() if k else st.tuples(st.integers(0, 6), st.sampled_from([1001, 1004]), st.sampled_from(["ok", "ok", "block", "fail"])).map(list)),
     })
@@ -127,6 +131,10 @@ def _judge(case, out, clock, CS):
     thr = case["threshold"]
     enabled = case["breaker"]
     loop, ex, ass, budget = make_loop(case["logic"], breaker=enabled, threshold=thr, timeout=float(TIMEOUT), cache=case["cache"])
+    ex.payload_mode = ass.payload_mode = case.get("payload", "named")
+    if case.get("decoy"):
+        _decoys.loop(case["decoy"], ["prompt-%d" % k_ for k_ in range(4)])       # its breaker (threshold 1) ends up open, its cache holds permits for the same prompts
+        out.label("decoy")
     fail_hi = 0        # failures (definite or ambiguous) since the last clear
     consec = 0         # consecutive definite failures
     def_fail_total = 0
